@@ -87,13 +87,66 @@ pub fn scrutinee_types_d46() -> Vec<Ty> {
 pub const INTS: [i64; 3] = [0, 1, 2];
 pub const INT_FRESH: i64 = 7;
 /// spellings; equal values in different spellings on purpose
-pub const FLOATS: [&str; 5] = ["1.0", "1.00", "2.5", "0.5", "2.50"];
+pub const FLOATS: [&str; 7] = ["1.0", "1.00", "2.5", "0.5", "2.50", "0.3", "0.30000000000000004"];
 pub const FLOAT_FRESH: &str = "7.25";
 pub const STRS: [&str; 3] = ["a", "b", ""];
 pub const STR_FRESH: &str = "zz";
 
+/// exact decimal expansion of a double (the lexer has no exponent form)
+pub fn exact_decimal(x: f64) -> String {
+    let mut s = format!("{:.1100}", x);
+    while s.ends_with('0') && !s.ends_with(".0") {
+        s.pop();
+    }
+    s
+}
+
+fn next_up(x: f64) -> f64 {
+    f64::from_bits(x.to_bits() + 1)
+}
+
+/// float literal spellings for the literal-equality checks: adjacent doubles at several magnitudes
+/// (closer than f64::EPSILON below 1.0), controls differing in the last bit above 1.0, other spellings
+/// of the same double, spellings that overflow to +inf.  (`-0.0` cannot be written as a pattern: the
+/// lexer's number literals are unsigned.)
+pub fn floats_extra() -> &'static Vec<String> {
+    static CELL: std::sync::OnceLock<Vec<String>> = std::sync::OnceLock::new();
+    CELL.get_or_init(|| {
+        let mut v: Vec<String> = vec![
+            "0.0".into(), "0.0000000000000001".into(), "0.00".into(),
+            "1.".into(), "01.0".into(), "1_0.0".into(), "10.0".into(),
+            "1.5".into(), "1.5000000000000002".into(),
+            "0.1".into(), "0.10000000000000002".into(),
+        ];
+        let tiny = 1e-300f64;
+        v.push(exact_decimal(tiny));
+        v.push(exact_decimal(next_up(tiny)));
+        let sub = f64::from_bits(1);
+        v.push(exact_decimal(sub));
+        v.push(exact_decimal(f64::from_bits(2)));
+        let big = 4503599627370497.0f64; // 2^52 + 1: neighbours differ by 1.0
+        v.push(exact_decimal(big));
+        v.push(exact_decimal(next_up(big)));
+        v.push(format!("1{}.0", "0".repeat(400)));
+        v.push(format!("2{}.0", "0".repeat(400)));
+        v.push(exact_decimal(f64::MAX));
+        v
+    })
+}
+
+/// a spelling of the double with these bits (values are written back into programs)
+pub fn float_spelling(bits: u64) -> String {
+    for sp in FLOATS.iter().map(|s| s.to_string()).chain([FLOAT_FRESH.to_string()]).chain(floats_extra().iter().cloned()) {
+        if fbits(&sp) == bits {
+            return sp;
+        }
+    }
+    exact_decimal(f64::from_bits(bits))
+}
+
 pub fn fbits(sp: &str) -> u64 {
-    sp.parse::<f64>().unwrap().to_bits()
+    // the lexer drops `_` inside number literals
+    sp.replace('_', "").parse::<f64>().unwrap().to_bits()
 }
 
 #[derive(Clone, Debug, PartialEq)]
@@ -286,7 +339,8 @@ impl Universe {
             Ty::Void => vec![Val::Prod(vec![])],
             Ty::Int => INTS.iter().cloned().chain([INT_FRESH]).map(Val::Int).collect(),
             Ty::Float => {
-                let mut v: Vec<u64> = FLOATS.iter().cloned().chain([FLOAT_FRESH]).map(fbits).collect();
+                let mut v: Vec<u64> = FLOATS.iter().cloned().chain([FLOAT_FRESH]).map(fbits)
+                    .chain(floats_extra().iter().map(|s| fbits(s))).collect();
                 v.sort();
                 v.dedup();
                 v.into_iter().map(Val::Float).collect()
@@ -327,7 +381,7 @@ impl Universe {
         match (v, ty) {
             (Val::Bool(b), _) => format!("{b}"),
             (Val::Int(i), _) => format!("{i}"),
-            (Val::Float(b), _) => format!("{:?}", f64::from_bits(*b)),
+            (Val::Float(b), _) => float_spelling(*b),
             (Val::Str(s), _) => format!("\"{s}\""),
             (Val::Prod(_), Ty::Void) => "nil".into(),
             (Val::Prod(vs), Ty::Tuple(ts)) => {
@@ -908,6 +962,21 @@ pub fn gen_cases(u: &Universe, rng: &mut Rng, quick: bool) -> Vec<MatchCase> {
     out.push(MatchCase { ty: Ty::Float, origin: "corpus", arms: vec![fl("2.5"), Or(b(fl("1.0")), b(fl("2.50"))), Wild] });
     out.push(MatchCase { ty: Ty::Tuple(vec![Ty::Float, Ty::Bool]), origin: "corpus", arms: vec![
         Tuple(vec![fl("1.0"), Bool(true)]), Tuple(vec![fl("1.00"), Wild]), Tuple(vec![Wild, Bool(false)]) ]});
+    // adjacent doubles are different constructors; spellings of one double are the same constructor
+    out.push(MatchCase { ty: Ty::Float, origin: "corpus", arms: vec![fl("0.3"), fl("0.30000000000000004")] });
+    out.push(MatchCase { ty: Ty::Float, origin: "corpus", arms: vec![fl("0.3"), fl("0.30000000000000004"), Wild] });
+    out.push(MatchCase { ty: Ty::Float, origin: "corpus", arms: vec![fl("0.0"), fl("0.0000000000000001"), fl("0.00"), Wild] });
+    out.push(MatchCase { ty: Ty::Float, origin: "corpus", arms: vec![fl("1."), fl("01.0"), fl("1_0.0"), fl("10.0"), Wild] });
+    {
+        let ex = floats_extra();
+        let n = ex.len();
+        // the two overflowing spellings (both +inf) and f64::MAX
+        out.push(MatchCase { ty: Ty::Float, origin: "corpus", arms: vec![fl(&ex[n - 3]), fl(&ex[n - 2]), fl(&ex[n - 1]), Wild] });
+        // 1e-300 and its neighbour, the two smallest subnormals
+        out.push(MatchCase { ty: Ty::Tuple(vec![Ty::Float, Ty::Bool]), origin: "corpus", arms: vec![
+            Tuple(vec![fl(&ex[11]), Bool(true)]), Tuple(vec![fl(&ex[12]), Wild]), Tuple(vec![fl(&ex[13]), Wild]),
+            Tuple(vec![fl(&ex[14]), Bool(true)]), Wild ]});
+    }
     // D27 shape (the checker expands all combinations)
     out.push(MatchCase { ty: Ty::Tuple(vec![Ty::Int, Ty::Int]), origin: "corpus", arms: vec![
         Tuple(vec![Or(b(Int(1)), b(Int(2))), Or(b(Int(0)), b(Int(1)))]), Wild ]});
@@ -1188,5 +1257,60 @@ pub fn placement_selftest(u: &Universe, ctx: &mut Ctx) {
                 ));
             }
         }
+    }
+}
+
+// ---------------------------------------------------------------- sibling or-patterns (round-2 seed)
+fn orfree_alt(u: &Universe, t: &Ty, rng: &mut Rng) -> Pat {
+    let mut none = None;
+    let mut l = u.gen_pat(t, 1, rng, &mut none, false);
+    let mut tries = 0;
+    while has_or(&l) && tries < 8 {
+        l = u.gen_pat(t, 1, rng, &mut none, false);
+        tries += 1;
+    }
+    if has_or(&l) { Pat::Wild } else { l }
+}
+
+/// a pattern of a type with several components in which (almost) every component is an or-pattern of
+/// two different or-free alternatives: tuple / struct components, the fields of a multi-field variant
+pub fn sibling_or_pat(u: &Universe, ty: &Ty, rng: &mut Rng) -> Option<Pat> {
+    let comp = |t: &Ty, rng: &mut Rng| -> Pat {
+        if matches!(t, Ty::Void) {
+            return Pat::Wild;
+        }
+        let l = orfree_alt(u, t, rng);
+        let mut r = orfree_alt(u, t, rng);
+        let mut tries = 0;
+        while (r == l || matches!(l, Pat::Wild)) && tries < 6 {
+            r = orfree_alt(u, t, rng);
+            tries += 1;
+            if matches!(l, Pat::Wild) { break; }
+        }
+        if r == l || matches!(l, Pat::Wild) { l } else { Pat::Or(Box::new(l), Box::new(r)) }
+    };
+    match ty {
+        Ty::Tuple(ts) => Some(Pat::Tuple(ts.iter().map(|t| comp(t, rng)).collect())),
+        Ty::Struct(id) => {
+            let ps: Vec<Pat> = u.structs[*id].iter().map(|t| comp(t, rng)).collect();
+            let order = if rng.chance(1, 2) { Some(shuffled(ps.len(), rng)) } else { None };
+            Some(Pat::Struct(*id, ps, order))
+        }
+        Ty::Enum(e) => {
+            let multi: Vec<usize> = (0..u.enums[*e].len()).filter(|i| u.enums[*e][*i].fields.len() >= 2).collect();
+            if multi.is_empty() {
+                return None;
+            }
+            let i = *rng.pick(&multi);
+            let var = &u.enums[*e][i];
+            let ps: Vec<Pat> = var.fields.iter().map(|t| comp(t, rng)).collect();
+            if var.named {
+                let o = shuffled(ps.len(), rng);
+                Some(Pat::VariantNamed(*e, i, ps, o, false))
+            } else {
+                Some(Pat::VariantPos(*e, i, Box::new(Pat::Tuple(ps)), false))
+            }
+        }
+        _ => None,
     }
 }
